@@ -58,7 +58,10 @@ func (p *Pegnet) SelectMinerDominance(ctx context.Context, start, stop int) (Min
 	WHERE pn_winners.height >= ? AND pn_winners.height <= ? GROUP BY pn_winners.address;
 	`
 
-	rows, err := p.DB.QueryContext(ctx, stmtString, result.Start, result.Stop)
+	// Not QueryContext: these are API reads, ctx is the HTTP request's, and go-sqlite3 cancels by
+	// interrupting whatever statement runs on the pooled connection when its watcher fires - which
+	// can already be somebody else's (another request, or the sync transaction).
+	rows, err := p.DB.Query(stmtString, result.Start, result.Stop)
 	if err != nil {
 		if err == sql.ErrNoRows {
 			return result, nil
@@ -84,6 +87,10 @@ func (p *Pegnet) SelectMinerDominance(ctx context.Context, start, stop int) (Min
 			TotalWins:   wins,
 			TotalGraded: graded,
 		}
+	}
+	// an interrupted or failed iteration must not be answered with the rows read so far
+	if err := rows.Err(); err != nil {
+		return result, err
 	}
 
 	// Prevent a divide by 0
@@ -122,7 +129,7 @@ func (p *Pegnet) SelectGraded(ctx context.Context, height int32) (GradedResult, 
 	WHERE height = ?
 	`
 
-	rows, err := p.DB.QueryContext(ctx, stmtString, result.Height)
+	rows, err := p.DB.Query(stmtString, result.Height) // not QueryContext, see SelectMinerDominance
 	if err != nil {
 		if err == sql.ErrNoRows {
 			return result, nil
@@ -152,6 +159,10 @@ func (p *Pegnet) SelectGraded(ctx context.Context, height int32) (GradedResult, 
 			Address:    address,
 		})
 
+	}
+	// an interrupted or failed iteration must not be answered with the rows read so far
+	if err := rows.Err(); err != nil {
+		return result, err
 	}
 
 	return result, nil
